@@ -66,6 +66,7 @@ class Aggregator:
                 self.c['fault:caller_mutation_applied_to_live_object'] += s['mut_applied']
                 self.c['fault:call_raised_partway(uninjected)'] += s['raised']
                 self.c['fault:argument_container_recycled_at_same_address'] += s.get('recycled', 0)
+                self.c['capacity_filler_calls(unjudged)'] += s.get('bulk_calls', 0)
                 self.c['fault:clock_jumps_injected'] += s.get('clock_jumps', 0)
                 self.c['probe:clock_reads_by_library'] += s.get('clock_reads', 0)
                 self.c['start:' + s['conf']['start']] += 1
